@@ -28,7 +28,7 @@ theorem nextAlloc_nofault {s : List Bool} (h : false ∉ s) : (nextAlloc s).1 = 
 
 variable {α : Type}
 
-theorem add_none {b : Builder α} {x : α} {s s' : List Bool} (h : b.add x s = (none, s')) :
+theorem add_none {grow : Nat → Nat} {b : Builder α} {x : α} {s s' : List Bool} (h : b.add grow x s = (none, s')) :
     false ∈ s := by
   unfold Builder.add at h
   by_cases hc : b.elems.length ≥ b.cap
@@ -42,7 +42,7 @@ theorem add_none {b : Builder α} {x : α} {s s' : List Bool} (h : b.add x s = (
   · rw [if_neg hc] at h
     simp at h
 
-theorem add_some {b b' : Builder α} {x : α} {s s' : List Bool} (h : b.add x s = (some b', s')) :
+theorem add_some {grow : Nat → Nat} {b b' : Builder α} {x : α} {s s' : List Bool} (h : b.add grow x s = (some b', s')) :
     b'.elems = b.elems ++ [x] ∧ (false ∈ s' → false ∈ s) := by
   unfold Builder.add at h
   by_cases hc : b.elems.length ≥ b.cap
@@ -61,12 +61,12 @@ theorem add_some {b b' : Builder α} {x : α} {s s' : List Bool} (h : b.add x s 
     obtain ⟨rfl, rfl⟩ := h
     exact ⟨rfl, id⟩
 
-theorem addAll_inl : ∀ (ys : List α) (b : Builder α) (i : Nat) (s : List Bool) (j : Nat) (s' : List Bool),
-    Builder.addAll b ys i s = (.inl j, s') → j < i + ys.length ∧ false ∈ s
+theorem addAll_inl (grow : Nat → Nat) : ∀ (ys : List α) (b : Builder α) (i : Nat) (s : List Bool) (j : Nat) (s' : List Bool),
+    Builder.addAll grow b ys i s = (.inl j, s') → j < i + ys.length ∧ false ∈ s
   | [], b, i, s, j, s', h => by simp [Builder.addAll] at h
   | x :: ys, b, i, s, j, s', h => by
     rw [Builder.addAll] at h
-    cases hq : b.add x s with
+    cases hq : b.add grow x s with
     | mk o r =>
       rw [hq] at h
       cases o with
@@ -76,25 +76,25 @@ theorem addAll_inl : ∀ (ys : List α) (b : Builder α) (i : Nat) (s : List Boo
         exact ⟨by simp, add_none hq⟩
       | some b1 =>
         simp only at h
-        obtain ⟨h1, h2⟩ := addAll_inl ys b1 (i + 1) r j s' h
+        obtain ⟨h1, h2⟩ := addAll_inl grow ys b1 (i + 1) r j s' h
         exact ⟨by simp only [List.length_cons]; omega, (add_some hq).2 h2⟩
 
-theorem addAll_inr : ∀ (ys : List α) (b : Builder α) (i : Nat) (s : List Bool) (b' : Builder α) (s' : List Bool),
-    Builder.addAll b ys i s = (.inr b', s') → b'.elems = b.elems ++ ys ∧ (false ∈ s' → false ∈ s)
+theorem addAll_inr (grow : Nat → Nat) : ∀ (ys : List α) (b : Builder α) (i : Nat) (s : List Bool) (b' : Builder α) (s' : List Bool),
+    Builder.addAll grow b ys i s = (.inr b', s') → b'.elems = b.elems ++ ys ∧ (false ∈ s' → false ∈ s)
   | [], b, i, s, b', s', h => by
     simp only [Builder.addAll, Prod.mk.injEq, Sum.inr.injEq] at h
     obtain ⟨rfl, rfl⟩ := h
     exact ⟨by simp, id⟩
   | x :: ys, b, i, s, b', s', h => by
     rw [Builder.addAll] at h
-    cases hq : b.add x s with
+    cases hq : b.add grow x s with
     | mk o r =>
       rw [hq] at h
       cases o with
       | none => simp at h
       | some b1 =>
         simp only at h
-        obtain ⟨h1, h2⟩ := addAll_inr ys b1 (i + 1) r b' s' h
+        obtain ⟨h1, h2⟩ := addAll_inr grow ys b1 (i + 1) r b' s' h
         obtain ⟨h3, h4⟩ := add_some hq
         exact ⟨by rw [h1, h3]; simp, fun hm => h4 (h2 hm)⟩
 
